@@ -40,6 +40,12 @@ def gen_cases(tier, seed):
     # forward to the last one, at distances around the 8-bit limit - a suffix / rename / reformat must not flip the offset width
     def st(label, mn, op, kind, refs=(), abs_=False):
         return {"label": label, "mn": mn, "op": op, "kind": kind, "refs": list(refs), "abs": abs_, "comment": ""}
+    for k2 in range(6):
+        top = 0xFFFF - k2          # address of the last byte of the program before shifting
+        stmts = [st("BEGIN", "LDX", "#{TABLE}+15", "expr", ["TABLE"], True), st("", "LDY", "#{TABLE}+14", "expr", ["TABLE"], True), st("", "JMP", "{TABLE}+15", "expr", ["TABLE"], True),
+                 st("", "FDB", "1,2", "fdb"), st("", "LDU", "#{BEGIN}-1", "expr", ["BEGIN"], True), st("TABLE", "RMB", "16", "rmb")]
+        size = 3 + 4 + 3 + 4 + 3 + 16
+        yield {"id": "top/%d" % k2, "k": k2, "prog": {"origin": top - size + 1 - 3, "stmts": stmts, "equs": [], "name": None, "end": None, "org_label": ""}, "shifts": [1, 2, 3, -1, -0x100]}
     for n in (range(96, 132) if thorough else range(108, 130, 2)):
         for org in (None, 0x3000):
             stmts = [st("BUF", "RMB", str(n), "rmb"), st("", "LEAX", "{BUF},PCR", "pcr", ["BUF"]), st("", "LDA", "[{BUF},PCR]", "pcr", ["BUF"]),
@@ -128,7 +134,7 @@ def _run_case(case, ctx):
     # --- shift by D
     org = p["origin"]
     top = (org or 0) + len(base.image)
-    for D in r.sample([1, 2, 0x10, 0x100, 0x123, 0x1000, -1, -0x10, -0x100, 0x2001], 3):
+    for D in (case.get("shifts") or r.sample([1, 2, 0x10, 0x100, 0x123, 0x1000, -1, -0x10, -0x100, 0x2001], 3)):
         if org is None or org + D < 0x100 or top + D > 0xFFFF:
             continue
         lines2 = progs.render(p, origin=org + D)
@@ -187,6 +193,8 @@ def _run_case(case, ctx):
     same_everything("case", progs.render(p, mncase=lambda m: "".join(c.lower() if i % 2 else c for i, c in enumerate(m))))
     # --- suffixes
     for variant in range(3):
+        if (p["origin"] or 0) + len(base.image) + 300 > 0xFFFF:
+            break                          # no room above the program: an appended statement would legitimately run past $FFFF
         suf = []
         for j in range(r.randrange(1, 6)):
             kind = r.choice(["inh", "data", "label", "ref"])
